@@ -11,6 +11,7 @@ import AferoVerif.Engine.CowFs
 import AferoVerif.Engine.BpFs
 import AferoVerif.Engine.ReFs
 import AferoVerif.Engine.CacheFs
+import AferoVerif.Engine.CopyFault
 open AferoVerif
 
 partial def loop {σ : Type} (h : IO.FS.Stream) (out : IO.FS.Stream) (step : σ → String → σ × String) (s : σ) : IO Unit := do
@@ -34,4 +35,5 @@ def main (args : List String) : IO UInt32 := do
   | ["bpfs"] => loop stdin stdout Engine.BpFs.stepLine {}; return 0
   | ["refs"] => loop stdin stdout Engine.ReFs.stepLine {}; return 0
   | ["cachefs"] => loop stdin stdout Engine.CacheFs.stepLine {}; return 0
+  | ["copyfault"] => loop stdin stdout Engine.CopyFault.stepLine (); return 0
   | _ => IO.eprintln "usage: driver <engine>"; return 2
